@@ -178,6 +178,29 @@ def clvl(n, ovs, path, default):
 
 
 @task()
+def noop(x):
+    """A call whose result is None (side-effect style task)."""
+    return None
+
+
+@task(cache=False)
+def noop_nc(x):
+    return None
+
+
+@task()
+def after_none(r, x, nc=False):
+    # runs once r (the result of noop(x): None) is known, and makes the same call again from another parent
+    return noop_nc(x) if nc else noop(x)
+
+
+@task()
+def none_twice(x, nc=False):
+    first = noop_nc(x) if nc else noop(x)
+    return [first, after_none(first, x, nc)]
+
+
+@task()
 def cfan(ovs):
     """Siblings under one parent, each with its own override (or none), read the same path with the same default
     through a default argument; the parent reads it in its body too."""
